@@ -53,3 +53,34 @@ def register(w):
       ensures=['ast_node.closure_types is not None',
                'forall(lambda k, t: implies(old(ast_node.closure_types is not None and %s), %s), "QN", "Any")' % (NOW, NOW),
                'forall(lambda k, t: implies(old(%s), %s), "QN", "Any")' % (NEW, NOW)]))
+
+  # ---- the value type of the type-inference states: joins are pointwise unions
+  HASX = '(k in %s.types and t in %s.types[k])'
+  w.add(Contract(
+      T + '_TypeMap.__init__', serves=['C19'], types={'init_from': 'Opt[_TypeMap]'}, modifies=['self.types'], asserts='raise',
+      ensures=['fresh(self.types)',
+               'forall(lambda k: (k in self.types) == (init_from is not None and k in init_from.types), "QN")',
+               'forall(lambda k, t: %s == (init_from is not None and %s), "QN", "Any")' % (HASX % ('self', 'self'), HASX % ('init_from', 'init_from')),
+               # a copy owns its sets
+               'forall(lambda k: implies(k in self.types, fresh(self.types[k])), "QN")',
+               'forall(lambda a, b: implies(a in self.types and b in self.types and a is not b, self.types[a] is not self.types[b]), "QN", "QN")']))
+
+  UNION = '(%s or %s)' % (HASX % ('self', 'self'), HASX % ('other', 'other'))
+  w.add(Contract(
+      T + '_TypeMap.__or__', serves=['C19'], types={'other': '_TypeMap', 'return': '_TypeMap'}, modifies=[], asserts='raise',
+      requires=['self is not other',
+                # states own their sets (established by __init__'s copy)
+                'forall(lambda a, b: implies(a in self.types and b in other.types, self.types[a] is not other.types[b]), "QN", "QN")'],
+      locals_={'result': '_TypeMap', 'self_types': 'Set[Any]'},
+      loops={0: dict(modifies=['fresh'], inv=[
+          'result is not None', 'fresh(result)', 'fresh(result.types)',
+          'forall(lambda k: implies(k in result.types, fresh(result.types[k])), "QN")',
+          'forall(lambda a, b: implies(a in result.types and b in result.types and a is not b, result.types[a] is not result.types[b]), "QN", "QN")',
+          'unchanged(other.types)', 'unchanged(self.types)',
+          'forall(lambda k, t: implies(k in other.types, (t in other.types[k]) == old(t in other.types[k])), "QN", "Any")',
+          'forall(lambda k, t: implies(k in self.types, (t in self.types[k]) == old(t in self.types[k])), "QN", "Any")',
+          'forall(lambda k, t: %s == (%s or (k in _done and %s)), "QN", "Any")'
+          % (HASX % ('result', 'result'), HASX % ('self', 'self'), HASX % ('other', 'other'))])},
+      ensures=['fresh(result)', 'forall(lambda k, t: %s == %s, "QN", "Any")' % (HASX % ('result', 'result'), UNION),
+               'forall(lambda k, t: %s == old(%s), "QN", "Any")' % (HASX % ('self', 'self'), HASX % ('self', 'self')),
+               'forall(lambda k, t: %s == old(%s), "QN", "Any")' % (HASX % ('other', 'other'), HASX % ('other', 'other'))]))
